@@ -44,3 +44,20 @@ def main (args : List String) : IO UInt32 := do
 '''
 open(os.path.join(ROOT, 'lean', 'Main.lean'), 'w').write(main)
 print('Main.lean commands:', cmds)
+
+# files where both sides only ADD entries: keep both (drop the conflict markers)
+for rel in ('harness/manifest.py', 'lean/PlumpyModel.lean', 'harness/gen_tables.py'):
+    p = os.path.join(ROOT, rel)
+    s = open(p).read()
+    if '<<<<<<< ' in s:
+        s = re.sub(r'^<<<<<<< [^\n]*\n', '', s, flags=re.M)
+        s = re.sub(r'^=======\n', '', s, flags=re.M)
+        s = re.sub(r'^>>>>>>> [^\n]*\n', '', s, flags=re.M)
+        open(p, 'w').write(s)
+        print('union-resolved', rel)
+p = os.path.join(ROOT, 'lean', 'PlumpyModel.lean')
+lines = []
+for l in open(p).read().split('\n'):
+    if l and l not in lines:
+        lines.append(l)
+open(p, 'w').write('\n'.join(lines) + '\n')
